@@ -13,25 +13,59 @@ TIERS = {
 }
 
 
-def cc_tables(tier, tag, pool_delta=0):
-    """run TLC on every universe of the tier; returns {uname: (uni, table_path, stats, states)}"""
+RANDOM_UNIVERSES = {"quick": 8, "thorough": 80}
+
+
+def _one_table(u, uni, maxeqs, tag, pool_delta, workers):
     cfg = open(os.path.join(SPEC, "MC_CC.cfg")).read()
+    defs = {"MCN": uni["N"] + pool_delta, "MCTermPool": uni["terms"], "MCEqPool": uni["eqs"],
+            "MCMaxEqs": maxeqs, "MCInsBase": tla_set(uni["base"])}
+    logp, st = run_tlc_root("%s_%s" % (tag, u), "MC_CC", defs, cfg, timeout=3000, workers=workers)
+    require_tlc_ok(st, logp, "MC_CC/" + u)
+    us = list(tlcout.tagged_lines(logp, "UNIVERSE"))[0]
+    states = list(tlcout.tagged_lines(logp, "REPLAY"))
+    if len(states) != st["distinct"]:
+        raise ToolError("TLC emitted %d REPLAY lines for %d distinct states" % (len(states), st["distinct"]))
+    d = os.path.dirname(logp)
+    tpath = os.path.join(d, "table.json")
+    json.dump({"us": us["us"], "states": states}, open(tpath, "w"))
+    upath = os.path.join(d, "universe.json")
+    json.dump(uni, open(upath, "w"))
+    st["universe_terms"] = us["n"]
+    return u, (uni, tpath, st, states, upath)
+
+
+def cc_tables(tier, tag, pool_delta=0, with_random=True):
+    """run TLC on every universe of the tier (hand-written U1..U4 plus seeded random ones);
+    returns {uname: (uni, table_path, stats, states, universe_path)}"""
+    import concurrent.futures
     out = {}
     for u, maxeqs in TIERS[tier].items():
         uni = json.load(open(os.path.join(UNIV, u + ".json")))
-        defs = {"MCN": uni["N"] + pool_delta, "MCTermPool": uni["terms"], "MCEqPool": uni["eqs"],
-                "MCMaxEqs": maxeqs, "MCInsBase": tla_set(uni["base"])}
-        logp, st = run_tlc_root("%s_%s" % (tag, u), "MC_CC", defs, cfg, timeout=3000)
-        require_tlc_ok(st, logp, "MC_CC/" + u)
-        us = list(tlcout.tagged_lines(logp, "UNIVERSE"))[0]
-        states = list(tlcout.tagged_lines(logp, "REPLAY"))
-        if len(states) != st["distinct"]:
-            raise ToolError("TLC emitted %d REPLAY lines for %d distinct states" % (len(states), st["distinct"]))
-        tpath = os.path.join(os.path.dirname(logp), "table.json")
-        json.dump({"us": us["us"], "states": states}, open(tpath, "w"))
-        out[u] = (uni, tpath, st, states)
+        k, v = _one_table(u, uni, maxeqs, tag, pool_delta, None)
+        out[k] = v
         log("TLC %s: %d distinct states, %d transitions, universe %d terms, %.1fs" %
-            (u, st["distinct"], st["generated"], us["n"], st["wall_s"]))
+            (u, v[2]["distinct"], v[2]["generated"], v[2]["universe_terms"], v[2]["wall_s"]))
+    if with_random:
+        sys.path.insert(0, UNIV)
+        import gen_random
+        jobs = []
+        for i in range(RANDOM_UNIVERSES[tier]):
+            uni = gen_random.universe(seed(), i)
+            eqs = []
+            for e in uni["eqs"]:
+                if e not in eqs and e[::-1] not in eqs:
+                    eqs.append(e)
+            uni["eqs"] = eqs
+            if not eqs:
+                continue
+            jobs.append((uni["name"], uni, min(len(eqs), 3 if tier == "quick" else 4)))
+        t0 = time.time()
+        with concurrent.futures.ThreadPoolExecutor(max_workers=5) as ex:
+            for k, v in ex.map(lambda j: _one_table(j[0], j[1], j[2], tag, pool_delta, 3), jobs):
+                out[k] = v
+        log("TLC %d random universes (seed %d): %d states in %.1fs" %
+            (len(jobs), seed(), sum(out[j[0]][2]["distinct"] for j in jobs), time.time() - t0))
     return out
 
 
@@ -98,13 +132,13 @@ def make_triggers(tables):
 def run_cc(prop, tier):
     t0 = time.time()
     variants = ["default", "checks"] if prop == "C08" else ["default"]
-    namings = "all" if (prop == "C11" or tier == "thorough") else "rotate"
+    namings = "all" if prop == "C11" else "rotate"
     tables = cc_tables(tier, prop)
     findings, summaries = [], []
     for variant in variants:
-        for u, (uni, tpath, st, states) in tables.items():
-            out = run_bin(variant, "cc_replay", [os.path.join(UNIV, u + ".json"), tpath, namings, ncpu()],
-                          env={"VERIF_MAXPATHS": 64 if tier == "quick" else 400})
+        for u, (uni, tpath, st, states, upath) in tables.items():
+            out = run_bin(variant, "cc_replay", [upath, tpath, namings, ncpu()],
+                          env={"VERIF_MAXPATHS": 64 if tier == "quick" else 128})
             recs = jsonl(out)
             summ = [r for r in recs if r["kind"] == "summary"][0]
             summ["variant"] = variant
@@ -139,7 +173,7 @@ def run_cc(prop, tier):
     for u, t in tables.items():
         uni = t[0]
         for s in t[3]:
-            if len(s["key"]) == TIERS[tier][u]:
+            if u in TIERS[tier] and len(s["key"]) == TIERS[tier][u]:
                 sample_states.append({"universe": u, "equations": [[uni["texts"][a - 1], uni["texts"][b - 1]]
                                                                    for a, b in (uni["eqs"][e - 1] for e in s["key"])],
                                       "spec_classes": s["ncls"], "spec_slots_of_pool_terms": s["slots"][:6]})
@@ -157,7 +191,7 @@ def run_cc(prop, tier):
         "exhaustive": True,
         "tlc": {u: t[2] for u, t in tables.items()},
         "universes": {u: {"N": t[0]["N"], "terms": len(t[0]["terms"]), "equation_pool": len(t[0]["eqs"]),
-                          "max_equations": TIERS[tier][u]} for u, t in tables.items()},
+                          "max_equations": TIERS[tier].get(u, min(len(t[0]["eqs"]), 3 if tier == "quick" else 4))} for u, t in tables.items()},
         "replay": summaries,
         "paths_aborted_by_panics_or_inconsistency": sum(s["paths"] - s["completed_paths"] for s in summaries),
         "findings_attributed_to_other_properties": others,
